@@ -133,6 +133,8 @@ type Exec struct {
 	typeTags map[string]int
 	curFrame *Frame
 	usesSz bool
+	inRecover bool
+	strPrefixOf map[string]Term
 	modelExtra []string
 }
 
@@ -152,7 +154,20 @@ type Frame struct {
 	out     map[*ssa.BasicBlock]*State
 	edge    map[[2]int]Term
 	parent  *Frame
-	deferred []*ssa.Defer
+	deferred []deferRec
+	panics  []panicState
+}
+
+type deferRec struct {
+	ins  *ssa.Defer
+	fn   Val
+	args []Val
+}
+
+type panicState struct {
+	st   *State
+	pos  token.Pos
+	what string
 }
 
 type exitState struct {
@@ -286,7 +301,7 @@ func (x *Exec) typeFact(v Term, ty types.Type, alloc Term) Term {
 			return rangeFact(v, ty)
 		}
 		if u.Info()&types.IsString != 0 {
-			return And(mk(SBool, "(>= (str_len %s) 0)", v), mk(SBool, "(<= (str_len %s) 4611686018427387904)", v), Not(Eq(v, Term{"bytes_nil", SStr})))
+			return And(mk(SBool, "(>= (str_len %s) 0)", v), mk(SBool, "(<= (str_len %s) 281474976710656)", v), Not(Eq(v, Term{"bytes_nil", SStr})))
 		}
 	case *types.Pointer, *types.Map, *types.Chan:
 		return And(mk(SBool, "(<= 0 %s)", v), mk(SBool, "(< %s %s)", v, alloc))
@@ -294,9 +309,9 @@ func (x *Exec) typeFact(v Term, ty types.Type, alloc Term) Term {
 		return mk(SBool, "(<= 0 %s)", v)
 	case *types.Slice:
 		if isByteSlice(ty) {
-			return And(mk(SBool, "(>= (str_len %s) 0)", v), mk(SBool, "(<= (str_len %s) 4611686018427387904)", v))
+			return And(mk(SBool, "(>= (str_len %s) 0)", v), mk(SBool, "(<= (str_len %s) 281474976710656)", v))
 		}
-		return And(mk(SBool, "(>= %s 0)", SlLen(v)), mk(SBool, "(<= %s 4611686018427387904)", SlLen(v)))
+		return And(mk(SBool, "(>= %s 0)", SlLen(v)), mk(SBool, "(<= %s 281474976710656)", SlLen(v)))
 	case *types.Interface:
 		return And(mk(SBool, "(<= 0 %s)", IfcTag(v)), mk(SBool, "(<= 0 %s)", IfcRef(v)), mk(SBool, "(< %s %s)", IfcRef(v), alloc),
 			Implies(Eq(IfcTag(v), IntLit(0)), Eq(IfcRef(v), IntLit(0))))
@@ -414,8 +429,109 @@ func (x *Exec) fieldStep(e *Env, cur TV, i int) TV {
 	return TV{}
 }
 
+func (x *Exec) ghostLookup(ty types.Type, name string) (*GhostField, string) {
+	n, _ := namedStruct(ty)
+	if n == nil || n.Obj().Pkg() == nil {
+		return nil, ""
+	}
+	key := n.Obj().Pkg().Path() + "." + n.Obj().Name() + "." + name
+	g := x.db.Ghosts[key]
+	if g == nil {
+		// promoted through embedded pointers
+		if _, s := namedStruct(ty); s != nil {
+			for i := 0; i < s.NumFields(); i++ {
+				if s.Field(i).Embedded() {
+					if gg, hn := x.ghostLookup(s.Field(i).Type(), name); gg != nil {
+						return gg, hn
+					}
+				}
+			}
+		}
+		return nil, ""
+	}
+	return g, "G_" + sanitize(n.Obj().Name()) + "_" + sanitize(name)
+}
+
 func (x *Exec) ghostField(e *Env, base TV, name string) (TV, bool) {
-	return TV{}, false
+	g, hn := x.ghostLookup(base.Ty, name)
+	if g == nil {
+		return TV{}, false
+	}
+	// walk embedded pointers down to the declaring struct
+	cur := base
+	for {
+		n, s := namedStruct(cur.Ty)
+		if n != nil && n.Obj().Name() == g.Struct && n.Obj().Pkg().Path() == g.PkgPath {
+			break
+		}
+		moved := false
+		for i := 0; s != nil && i < s.NumFields(); i++ {
+			if s.Field(i).Embedded() {
+				if gg, _ := x.ghostLookup(s.Field(i).Type(), name); gg != nil {
+					cur = x.fieldStep(e, cur, i)
+					moved = true
+					break
+				}
+			}
+		}
+		if !moved {
+			return TV{}, false
+		}
+	}
+	st := x.ghostSort(g)
+	h := e.st.Heap(x, hn, ArraySort(SInt, st.sort))
+	e.cands.addRef(cur.T)
+	return TV{Select(h, cur.T), st.ty}, true
+}
+
+func (x *Exec) ghostSort(g *GhostField) specType {
+	st := x.parseSpecTypeIn(g.Type, g.PkgPath)
+	if st.ty != nil {
+		if mt, ok := st.ty.Underlying().(*types.Map); ok {
+			// ghost maps are values, not references
+			return specType{x.mapSort(mt), nil}
+		}
+	}
+	return st
+}
+
+// ghostAssign performs target := value on the ghost heap of state st.
+func (x *Exec) ghostAssign(ga GhostAssign, env *Env) {
+	if ga.Target.Kind != EField {
+		sfail("ghost assignment target must be obj.ghostfield")
+	}
+	base := env.Tr(ga.Target.Args[0])
+	g, hn := x.ghostLookup(base.Ty, ga.Target.Name)
+	if g == nil {
+		sfail("no ghost field %s", ga.Target.Name)
+	}
+	cur := base
+	for {
+		n, s := namedStruct(cur.Ty)
+		if n != nil && n.Obj().Name() == g.Struct && n.Obj().Pkg().Path() == g.PkgPath {
+			break
+		}
+		moved := false
+		for i := 0; s != nil && i < s.NumFields(); i++ {
+			if s.Field(i).Embedded() {
+				if gg, _ := x.ghostLookup(s.Field(i).Type(), ga.Target.Name); gg != nil {
+					cur = x.fieldStep(env, cur, i)
+					moved = true
+					break
+				}
+			}
+		}
+		if !moved {
+			sfail("ghost field path")
+		}
+	}
+	v := env.Tr(ga.Value)
+	st := x.ghostSort(g)
+	if v.T.Sort != st.sort {
+		sfail("ghost assignment: value sort %s, field sort %s", v.T.Sort, st.sort)
+	}
+	h := env.st.Heap(x, hn, ArraySort(SInt, st.sort))
+	env.st.heaps[hn] = x.b.Def(hn, StoreT(h, cur.T, v.T))
 }
 
 func (x *Exec) subSlice(sink *Builder, s, lo, hi Term) Term {
@@ -634,12 +750,16 @@ func VerifyFunction(ld *Loader, db *ContractDB, fn *ssa.Function, con *Contract)
 	x.obls = append(x.obls, &Obligation{Name: x.fnKeyShort() + "/cover", Kind: "cover", Tags: con.Tags, Func: x.fnKey, mark: x.b.Mark(), guard: tTrue, ground: &tt, mustSat: true, Src: "preconditions satisfiable"})
 
 	x.runFrame(f)
+	x.topLevelPanics(f)
 
 	// exits
 	for _, ex := range f.exits {
 		vars := x.paramVars()
 		x.bindResults(vars, ex.results)
 		eenv := x.newEnv(vars, ex.st, x.entry)
+		for _, ga := range con.GhostExit {
+			x.ghostAssign(ga, eenv)
+		}
 		for _, c := range con.Ensures {
 			x.b.Comment("exit at " + x.posStr(ex.pos))
 			lbl := ""
@@ -663,6 +783,43 @@ func VerifyFunction(ld *Loader, db *ContractDB, fn *ssa.Function, con *Contract)
 		x.note("function has no normal exit")
 	}
 	return x, nil
+}
+
+// topLevelPanics decides what a panic exit of the function under proof means: with a deferred
+// recover() closure it becomes a normal exit through the Recover block; otherwise the contract's
+// xensures must hold there (no xensures/panics_if: the panic must be unreachable).
+func (x *Exec) topLevelPanics(f *Frame) {
+	for len(f.panics) > 0 {
+		ps := f.panics[0]
+		f.panics = f.panics[1:]
+		if len(f.deferred) > 0 && f.fn.Recover != nil {
+			x.cur = ps.st
+			x.inRecover = true
+			x.runDeferred(f)
+			x.inRecover = false
+			if x.cur != nil {
+				x.execBlock(f, f.fn.Recover)
+			}
+			x.cur = nil
+			continue
+		}
+		if len(x.con.XEnsures) == 0 && len(x.con.PanicsIf) == 0 {
+			x.cur = ps.st
+			x.obligeGround(f, "panic", x.safetyTags(), ps.st.reach, tFalse, ps.what+" reachable", ps.pos)
+			x.cur = nil
+			continue
+		}
+		env := x.newEnv(x.paramVars(), ps.st, x.entry)
+		for _, c := range x.con.PanicsIf {
+			pe := *env
+			pe.st = x.entry
+			x.obligeSpec(f, "panic-allowed", c, ps.st.reach, &pe, "")
+		}
+		for _, c := range x.con.XEnsures {
+			x.obligeSpec(f, "xpost", c, ps.st.reach, env, "")
+		}
+		x.frameObligations(f, exitState{st: ps.st, pos: ps.pos})
+	}
 }
 
 func (x *Exec) paramVars() map[string]TV {
@@ -741,6 +898,13 @@ func (x *Exec) resolveModItem(m *Expr, env *Env, ms *modSet) {
 		base := env.Tr(m.Args[0])
 		_, index, _ := lookupField(base.Ty, x.pkgTypes(), m.Name)
 		if index == nil {
+			if g, hn := x.ghostLookup(base.Ty, m.Name); g != nil {
+				tv, _ := x.ghostField(env, base, m.Name)
+				// the selected object is the second argument of the select term
+				parts := splitSexp(tv.T.S)
+				ms.objs[hn] = append(ms.objs[hn], Term{parts[2], SInt})
+				return
+			}
 			sfail("modifies: no field %s in %s", m.Name, base.Ty)
 		}
 		cur := base
